@@ -173,7 +173,7 @@ def embed_tasks(check, Q, low, T, planar, full, tag):
     return out
 
 
-def adjudicate(check, t, ob):
+def adjudicate_once(check, t, ob, trial):
     kind, low, f, g = t.meta[:4]
     rec = {'property': 'C05', 'obligation': ob.name, 'function': ob.function, 'source': ob.loc, 'verifier_output': ob.detail,
            'solver_model': {k: str(v) for k, v in (ob.cex or {}).items()} if isinstance(ob.cex, dict) else None, 'text': ob.text}
@@ -183,7 +183,7 @@ def adjudicate(check, t, ob):
         inputs, k = {}, 0
         for pn in param_names(f):
             n = nleaves(low, dict(f.params)[pn])
-            inputs[pn] = [Fraction(primes[(k + j) % len(primes)], 2) for j in range(n)]
+            inputs[pn] = [Fraction(primes[(k + j + 2 * trial) % len(primes)], (2, 3, 7, 10)[trial % 4]) for j in range(n)]
             k += n
         r1 = native(check, low, f, inputs, ob, 'a')
         if r1 is not None:
@@ -207,13 +207,35 @@ def adjudicate(check, t, ob):
             if r2 is not None:
                 rec['inputs'] = {k2: [str(x) for x in v] for k2, v in inputs.items()}
                 rec['native_output'] = {'first': [str(x) for x in r1], 'second': [str(x) for x in r2]}
-                bad = ['component %d: composing the two relations returns %r for the original %r' % (j, float(x), float(y))
-                       for j, (x, y) in enumerate(zip(r2, want)) if abs(float(x) - float(y)) > 1e-9 * max(1.0, abs(float(y)))]
+                # at the resolution of the numeric type of the obligation (the native values are read back exactly)
+                Tn = ob.name.rsplit('.', 1)[1].replace('_', ' ')
+                tol = {'float': 1e-5, 'double': 1e-13, 'long double': 64.0 * 2.0 ** -63}.get(Tn, 1e-9)
+                bad = []
+                for j, (x, y) in enumerate(zip(r2, want)):
+                    try:
+                        d_, s_ = abs(Fraction(x) - Fraction(y)), max(Fraction(1), abs(Fraction(y)))
+                        off = d_ > Fraction(tol) * s_
+                        rel = float(d_ / s_)
+                    except (TypeError, ValueError, OverflowError):
+                        off, rel = (float(x) != float(y)), float('nan')
+                    if off:
+                        bad.append('component %d: composing the two relations returns %.21g for the original %.21g (relative difference %.3g, tolerance %.3g at the resolution of %s)' % (
+                            j, float(x), float(y), rel, tol, Tn))
                 if bad:
                     confirmed, rec['mismatch'] = True, bad
     except Exception as e:
         rec['replay_error'] = '%s: %s' % (type(e).__name__, e)
     rec['confirmed'] = confirmed
+    return rec, confirmed
+
+
+def adjudicate(check, t, ob):
+    """Native replay on up to four input sets (a precision loss need not show on every input)."""
+    rec, confirmed = None, False
+    for trial in range(4):
+        rec, confirmed = adjudicate_once(check, t, ob, trial)
+        if confirmed or rec.get('replay_error'):
+            break
     check.violations.append((ob, write_replay(check, ob, rec), '' if confirmed else 'no-failing-input-found'))
 
 
